@@ -117,10 +117,10 @@ class C03Monitor(simfarm.Monitor):
         farm = sim.farm
         # (iii) conservation: every release is on a worker, in the farm queues, or answered
         self.cons += 1
-        limbo = [r.brief() for r in sim.releases if r.state == 'released' and r.epoch == sim.epoch]
+        limbo = [r.brief() for r in sim.releases if r.state == 'released' and r.epoch == sim.epoch and not getattr(r, 'in_jobs', False)]
         if limbo:
             sim.violation('released-unit-vanished', f'released but neither queued nor handed: {limbo[:4]}')
-        nq = len(farm._cluster) + len(farm._cloud) + len(farm._jobs)  # pylint: disable=protected-access
+        nq = len(farm._cluster) + len(farm._cloud)  # pylint: disable=protected-access
         nl = sum(1 for r in sim.releases if r.state == 'queued')
         if nq != nl:
             sim.violation('queue-conservation', f'{nq} task messages queued in the farm, ledger expects {nl}')
@@ -167,6 +167,7 @@ def profile(rng):
     p = {k: (dict(v) if isinstance(v, dict) else v) for k, v in simfarm.DEFAULT_PROFILE.items()}
     p['weights']['rerun_inflight'] = rng.choice([0.6, 1.5, 3.0])
     p['weights']['connect'] = rng.choice([1.0, 3.0])
+    p['p_dbfault'] = rng.choice([0.0, 0.05, 0.15])
     return p
 
 
